@@ -7,7 +7,7 @@ from vlib.core import Outcome, Sub
 
 PROPERTY = "C01"
 RULE = ("history: init_adaptive_combi_scheme(d, lmin, lmax) followed by 0..40 update_adaptive_combi requests drawn "
-        "from {an active index, an old index, an arbitrary vector near the set, the previous request again, re-initialisation of the same object with the same or other levels}; all "
+        "from {an active index, an old index, an arbitrary vector near the set, the previous request again, re-initialisation of the same object with the same or other levels}, in a third of the cases interleaved with requests on a second live scheme object of other dimension / levels; all "
         "invariants are evaluated after every request. Non-trivial = at least one request added forward neighbours in "
         "some but not all dimensions, or was rejected (not active), and d>=2. closed-form sub: (d,lmin,lmax) with d>=2 and "
         "lmax>lmin is non-trivial. Distinct = distinct case dict.")
@@ -119,10 +119,44 @@ def run_history(case):
     if set(cs.old_index_set) != m_old or set(cs.active_index_set) != m_active:
         out.bad(sub + "/initial-sets", "old/active differ from the simplex construction")
     check_invariants(out, sub, cs, d, lmin, "after init")
+    # a second, independent scheme object that is alive and used in between (state must be per object)
+    other = None
+    if case.get("other"):
+        d2, lmin2, lmax2 = case["other"][:3]
+        cs2 = CombiScheme(d2)
+        cs2.init_adaptive_combi_scheme(lmax2, lmin2)
+        o_old = set(l for l in itertools.product(range(lmin2, lmax2 + 1), repeat=d2) if sum(x - lmin2 for x in l) < lmax2 - lmin2)
+        o_act = set(l for l in itertools.product(range(lmin2, lmax2 + 1), repeat=d2) if sum(x - lmin2 for x in l) == lmax2 - lmin2)
+        other = dict(cs=cs2, d=d2, lmin=lmin2, old=o_old, act=o_act)
+        out.cls("second-scheme-object-alive")
+
+        def bystander(tag, k):
+            """one request on the other object, then both objects must still be what their own histories say"""
+            lst = sorted(cs2.active_index_set)
+            if lst and k % 3 != 0:
+                v = lst[k % len(lst)]
+                cs2.update_adaptive_combi(v)
+                _model_update(other["old"], other["act"], lmin2, d2, v)
+            elif k % 3 == 0 and k:
+                cs2.init_adaptive_combi_scheme(lmax2, lmin2)
+                other["old"] = set(l for l in itertools.product(range(lmin2, lmax2 + 1), repeat=d2) if sum(x - lmin2 for x in l) < lmax2 - lmin2)
+                other["act"] = set(l for l in itertools.product(range(lmin2, lmax2 + 1), repeat=d2) if sum(x - lmin2 for x in l) == lmax2 - lmin2)
+            t2 = tag + " and a request on another live scheme object (d=%d, lmin=%d, lmax=%d)" % (d2, lmin2, lmax2)
+            if (set(cs.old_index_set), set(cs.active_index_set)) != (m_old, m_active):
+                out.bad(sub + "/sets-changed-by-another-scheme-object", t2)
+            if (set(cs2.old_index_set), set(cs2.active_index_set)) != (other["old"], other["act"]):
+                out.bad(sub + "/other-object/model-mismatch", t2)
+            check_invariants(out, sub + "/after-another-scheme-object-was-used", cs, d, lmin, t2)
+            check_invariants(out, sub + "/other-object", cs2, d2, lmin2, t2)
+        bystander("after init", 1)
     prev = None
     partial = rejected = False
     nsucc = 0
     for i, op in enumerate(case["ops"]):
+        if other is not None and i % 2 == 1 and not out.violations:
+            bystander("before op %d" % i, case["other"][3][i % len(case["other"][3])])
+            if out.violations:
+                break
         kind = op[0]
         if kind == "active":
             lst = sorted(cs.active_index_set)
@@ -261,7 +295,13 @@ def history_strategy(tier):
                 ops.append([k, draw(st.sampled_from([0, 0, 0, 1, 2, 3])), draw(st.integers(0, 3))])
             else:
                 ops.append([k])
-        return dict(d=d, lmin=lmin, lmax=lmax, ops=ops, mutate=draw(st.booleans()))
+        c = dict(d=d, lmin=lmin, lmax=lmax, ops=ops, mutate=draw(st.booleans()))
+        if draw(st.integers(0, 2)) == 0:
+            # another live scheme object (other dimension / levels) used in between
+            d2 = draw(st.integers(1, 3))
+            l2 = draw(st.integers(0, 2))
+            c["other"] = [d2, l2, l2 + draw(st.integers(1, 2)), draw(st.lists(st.integers(0, 20), min_size=1, max_size=6))]
+        return c
     return s()
 
 
